@@ -84,13 +84,16 @@ def known_match(prop, sig, known):
             continue
         if m.get("label") and not re.fullmatch(m["label"], sig["label"]):
             continue
-        ok = True
-        for pk, pv in (m.get("params") or {}).items():
-            if sig["params"].get(pk) != pv:
-                ok = False
-        if ok:
+        if _subset(m.get("params") or {}, sig["params"]):
             return k
     return None
+
+
+def _subset(pat, val):
+    """every key of `pat` is present in `val` with an equal (recursively: subset) value"""
+    if isinstance(pat, dict):
+        return isinstance(val, dict) and all(k in val and _subset(v, val[k]) for k, v in pat.items())
+    return pat == val
 
 
 def write_replay(prop, task, viol):
